@@ -488,10 +488,15 @@ structure Prim (E : Type) where
   mask : MaskV E
   deriving DecidableEq, Repr
 
-/-- a termination condition: a primitive or a `When / And / Or` tuple -/
+/-- a termination condition: a primitive or a `When / And / Or` tuple (`w`: the tuple is a `When`, whose
+constructor takes exactly one argument - `When(And(a, b))` is a `When` with TWO members, termination.py l.76-81) -/
 inductive Cond (E : Type) where
   | prim (p : Prim E)
-  | node (cs : List (Cond E))
+  | node (w : Bool) (cs : List (Cond E))
+
+/-- `type(condition)(*conditions)` (mask.py l.41): `When.__new__` rejects anything but one argument (TypeError) -/
+def rebuild {E : Type} (w : Bool) (cs : List (Cond E)) : Except Err (Cond E) :=
+  if w = true ∧ cs.length ≠ 1 then .error .type else .ok (.node w cs)
 
 /-- the key of a collapse message: the doc string of the primitive that reported, i.e. its factory and all
 its keyword settings at the time of the report (`termdoc.startswith(kind)`, l.38) -/
@@ -516,9 +521,9 @@ def updIn (k : Prim E) (new : MaskV E) : Cond E → Except Err (Cond E)
                   | .ok q => .ok (.prim q)
                   | .error e => .error e)
                else .ok (.prim p)
-  | .node cs => match updInL k new cs with
-                | .ok cs' => .ok (.node cs')
-                | .error e => .error e
+  | .node w cs => match updInL k new cs with
+                  | .ok cs' => rebuild w cs'
+                  | .error e => .error e
 def updInL (k : Prim E) (new : MaskV E) : List (Cond E) → Except Err (List (Cond E))
   | [] => .ok []
   | c :: cs => match updIn k new c with
@@ -531,9 +536,9 @@ end
 /-- `_update_masks(condition, mask, kind)` l.31-44: a bare primitive is extended WHATEVER the kind -/
 def updateMasks (c : Cond E) (new : MaskV E) (k : Prim E) : Except Err (Cond E) :=
   match c with
-  | .node cs => match updInL k new cs with
-                | .ok cs' => .ok (.node cs')
-                | .error e => .error e
+  | .node w cs => match updInL k new cs with
+                  | .ok cs' => rebuild w cs'
+                  | .error e => .error e
   | .prim p => match extendPrim p new with
                | .ok q => .ok (.prim q)
                | .error e => .error e
@@ -549,7 +554,7 @@ mutual
 /-- the primitives of a condition, left to right (`termination.state` visits them in this order) -/
 def Cond.prims : Cond E → List (Prim E)
   | .prim p => [p]
-  | .node cs => Cond.primsL cs
+  | .node _ cs => Cond.primsL cs
 def Cond.primsL : List (Cond E) → List (Prim E)
   | [] => []
   | c :: cs => Cond.prims c ++ Cond.primsL cs
